@@ -155,6 +155,10 @@ def cases(c):
                 for cplx in (0, 1):
                     out.append({'N': N, 'order': order, 'cplx': cplx, 'kind': 'noise', 'cont': 'array',
                                 'directed': True})
+    for i in range(16 if c.tier == 'quick' else 1600):
+        # long records (implementations may switch to an FFT-based correlation with the length)
+        out.append({'N': int(rng.integers(513, 900)), 'order': int(rng.integers(1, 12)), 'cplx': int(i % 4 != 0),
+                    'kind': gen.pick(rng, ['noise', 'tones', 'ar']), 'cont': 'array', 'amp10': 0, 'i': 4 * i + 3, 'long': True})
     for i in range(1500 if c.tier == 'quick' else 240000):
         N = int(rng.integers(3, 201 if i % 3 == 0 else 64))
         out.append({'N': N, 'order': int(rng.integers(1, min(N - 1, 30) + 1)), 'cplx': int(rng.integers(0, 2)),
